@@ -2758,6 +2758,28 @@ func (d *Data) ServeHTTP(uuid dvid.UUID, ctx *datastore.VersionedCtx, w http.Res
 		return
 	}
 
+	// Only serve the verbs of the documented API.  Several handlers treat anything that is not a GET
+	// as a write, or don't look at the verb at all, while the mutation gate for committed versions and
+	// read-only mode only recognizes POST, PUT and DELETE as mutations.
+	switch action {
+	case "get", "post", "delete":
+	case "head":
+		if parts[3] != "sparsevol" {
+			server.BadRequest(w, r, "HEAD is only available for endpoint /sparsevol")
+			return
+		}
+	default:
+		server.BadRequest(w, r, "labelmap only handles GET, POST, DELETE and HEAD HTTP verbs, not %q", r.Method)
+		return
+	}
+	switch parts[3] {
+	case "extents", "resolution", "ingest-supervoxels":
+		if action != "post" {
+			server.BadRequest(w, r, "only POST available for endpoint /%s", parts[3])
+			return
+		}
+	}
+
 	// Prevent use of APIs that require IndexedLabels when it is not set.
 	if !d.IndexedLabels {
 		switch parts[3] {
